@@ -526,7 +526,7 @@ def _fail_key(cls, label, hist, f):
 def trace_validation(ctx, exe):
     from vlib import trace
     rnd = random.Random(ctx.seed)
-    nexec, nops = (8, 50) if ctx.tier == "quick" else (24, 160)
+    nexec, nops = (8, 50) if ctx.tier == "quick" else (16, 160)
     labelled = [("random", gen_history(rnd, nops if k % 4 else max(50, nops // 2), k)) for k in range(nexec)] + families(ctx.tier)
     labels = [l for l, h in labelled]
     hist = [h for l, h in labelled]
@@ -617,7 +617,7 @@ def run(ctx):
     exe = harness(ctx)
     cfgs = ["StrObj_quick.cfg"] if ctx.tier == "quick" else ["StrObj_thorough.cfg", "StrObj_thorough2.cfg"]
     walks = (200, 40) if ctx.tier == "quick" else (3000, 60)
-    pairs = 60000 if ctx.tier == "quick" else 600000      # 2-step cover (hidden capacity / stale bytes depend on the history)
+    pairs = 60000 if ctx.tier == "quick" else 300000      # 2-step cover (hidden capacity / stale bytes depend on the history)
     for cfg in cfgs:
         g, res = objcheck.tlc_graph(ctx, MODULE, cfg, workers=4, timeout=3000)
         for cls in CLASSES:
